@@ -654,5 +654,5 @@ def rule_codec(ctx: Ctx):
                 "json files must be encoded/decoded incrementally with the encoding parameter; call: %s" % ast.unparse(node)))
     r.ob(n >= 2, lambda: Finding("CD-1", "rxsci/container/json.py{codec-stages}", "rxsci/container/json.py:1",
                                  "json files must go through rs.data.encode when written and rs.data.decode when read; %d such call(s) found" % n))
-    r.require_instances(4)
+    r.require_instances(2)
     return r
